@@ -420,7 +420,15 @@ pub fn worker(case: &Value) -> Value {
             }
         }
     }
-    json!({"n": n, "nontrivial": nontrivial, "hist": hist, "bad": bads})
+    let sample = texts
+        .first()
+        .and_then(|t| t.as_str())
+        .map(|t| {
+            let v = variants(t, limit, all_only);
+            json!({"original": truncate_text(t, 300), "variants": v.len(), "last_variant": v.last().map(|(_, l, x)| json!({"label": l, "text": truncate_text(x, 300)}))})
+        })
+        .unwrap_or(Value::Null);
+    json!({"n": n, "nontrivial": nontrivial, "hist": hist, "bad": bads, "sample": sample})
 }
 
 pub fn drive(tier: &str) -> i32 {
